@@ -87,15 +87,15 @@ pub fn run_functions(g: &GS, names: &[String], weighted: bool, pick: usize) -> V
     out
 }
 
-fn c07_case(rng: &mut Rng, thorough: bool, small: bool) -> GCase {
+fn c07_case(rng: &mut Rng, thorough: bool, small: bool, idx: u64) -> GCase {
     let specs = Specs::kind(rng.coin(), rng.chance(1, 4), rng.chance(1, 4));
-    if !small && rng.chance(1, 4) {
+    if !small && (idx < 6 || rng.chance(1, 4)) {
         // shapes on thresholds: a hub with exactly 63/64/65 successors, node counts around 256,
         // or barely above the 20-node parallel threshold (fewer nodes than worker threads)
         let wclass = *rng.pick(&[WClass::Generic, WClass::Unweighted]);
-        return match rng.below(3) {
+        return match if idx < 6 { (idx % 3) as usize } else { rng.below(3) } {
             0 => {
-                let deg = *rng.pick(&[63usize, 64, 65]);
+                let deg = if idx < 6 { 64 } else { *rng.pick(&[63usize, 64, 65]) };
                 let n = deg + 1 + rng.below(6);
                 let names = scrambled_names(n, rng);
                 let hub = rng.below(n);
@@ -166,7 +166,7 @@ pub fn run_c07(a: &Args) {
             continue;
         }
         let mut rng = Rng::new(mix(a.seed ^ 0xC07, idx));
-        let case = c07_case(&mut rng, a.thorough, light);
+        let case = c07_case(&mut rng, a.thorough, light, idx);
         ctx::case_desc(case.json());
         let g = case.build();
         let kind = kind_class(&g);
